@@ -15,13 +15,13 @@ import itertools
 import os
 from multiprocessing import Pool
 
-from harness import c07_mem, common
+from harness import c07_mem, c07_views, common
 from harness.common import Model
 
 PID = "C07"
 # T-bvsugar: bounds of the __setitem__/__getitem__ slice sugar (bytevec.py); T-memwire: offset/size wiring of the memory
 # instructions, State.mslice/set_mslice, calldata_slice, copy_returndata_to_memory (sevm.py); T-codeslice: Contract.slice
-TRANSLATORS = ["T-bvsugar", "T-memwire", "T-codeslice"]
+TRANSLATORS = ["T-bvsugar", "T-chunkview", "T-memwire", "T-codeslice"]
 # Genuine defects found on the unchanged tree.  Until the coordinator moves an entry to
 # known_findings.json (or repairs halmos), a failing input whose sig matches is printed as
 # KNOWN-FINDING and recorded in the evidence instead of failing the run; any other
@@ -1198,6 +1198,7 @@ def run(rep, tier):
                     rep.fail("broken-tie", f"model and implementation disagree (flat reference agrees with implementation) at step {d['step']} of {str(c['steps'])[:400]}: {d}", case={"case": c, **d})
     setitem_probe(rep, exe)
     mem_layer(rep, exe, r, tier)
+    c07_views.run_layer(rep, common.rng(PID + ":views"), tier)
     # alias probe: model must predict what the implementation does; deviation from value semantics recorded
     pi = len(cases)
     dspec = compare_spec(probe, impl[pi], spec_run(probe))
@@ -1217,16 +1218,20 @@ def run(rep, tier):
     rep.coverage["exhaustive"] = True
     rep.coverage["exhaustive_note"] = exh_note
     return rep.finish(
-        checker_cmd="make -C coq Props/C07.vo (coq_makefile, coqc 8.16.1); Gen/GenByteVecSugar.v, GenMemWire.v, GenCodeSlice.v regenerated from /repo first",
+        checker_cmd="make -C coq Props/C07.vo (coq_makefile, coqc 8.16.1); Gen/GenByteVecSugar.v, GenChunkView.v, GenMemWire.v, GenCodeSlice.v regenerated from /repo first",
         trusted_base=common.TRUSTED_BASE_COMMON,
         assumptions=ASSUMPTIONS,
         partial=PARTIAL,
-        rule="(1) ByteVec store: cases = sequences of steps over a store of ByteVec objects (new, copy, slice kept as object, append, set_byte, set_slice, set_word, and -- anywhere between the writes, also repeated -- observations of any live object by every public read: unwrap, len, get_byte, v[i], slice, v[a:b] with optional bounds, get_word, == with a copy / another object; in the exhaustive sequences the whole content and the length are observed after EVERY write; values = bytes / BitVecVal / int / HalmosBitVec / fresh z3 symbols / Chunk windows into longer data / slices of the receiver or of another object / a whole ByteVec object; plain calls, the __setitem__ sugar with explicit and omitted bounds, the State wrappers of sevm.py), followed by get_byte on a grid, unwrap and get_word of every object; corpus, exhaustive short sequences, then seeded random sequences over per-case sub-grids of [0,1,2,30,31,32,33,63,64,65] so that writes land exactly on existing chunk boundaries. After EVERY step EVERY live object is compared (raised?, len, recursive chunk layout [(key,len,kind,start,data_len)], flat content; symbolic bytes by identity, else under 2 valuations) with the extracted heap model and with the flat reference. Generated cases respect the isolation proviso (an object passed whole is never a receiver afterwards). Non-trivial = some write took the aligned or general path of set_slice, split a chunk with set_byte, or was an overlapping self copy. (2) slice sugar: bv[start:stop] = bytes and bv[start:stop] over a grid of optional bounds (omitted, explicit 0, inside, at and beyond the end). (3) memory instructions: programs assembled from 1..7 of MSTORE (PUSH32 or CALLDATALOAD value) / MSTORE8 / MLOAD+MSTORE / CALLDATACOPY / CODECOPY / EXTCODECOPY (account with code, with empty code, without account) / RETURNDATACOPY (in bounds, at the end, beyond) / MCOPY (overlapping) / MLOAD and MSIZE observations between the writes, left on the stack / message calls (STATICCALL, CALL, DELEGATECALL, CALLCODE; callee = 0..3 instructions then RETURN or REVERT of a window of its memory, possibly halting; output area smaller / equal / larger than the returned data) / at most one creation (CREATE, CREATE2: the init code = 0..3 instructions then RETURN or REVERT is first written to memory with MSTOREs; it reads its EMPTY calldata and its own code), optionally a JUMPI on the symbolic CALLVALUE forking the path (often on a still empty memory) and a final RETURN / REVERT; calldata = concrete bytes and z3 symbols; offsets and sizes from a grid around 0, 32, 64 and the current ends. The real SEVM runs the program; for every reported path the final memory (length, recursive chunk layout, content), the returndata buffer, MSIZE, the output data and the code of the account a creation deployed are compared with the flat EVM semantics (failing input) and with the extracted MemOpsModel (broken tie). Non-trivial = the path ran to its end through >= 2 instructions; distinct by hash of the case",
+        rule="(1) ByteVec store: cases = sequences of steps over a store of ByteVec objects (new, copy, slice kept as object, append, set_byte, set_slice, set_word, and -- anywhere between the writes, also repeated -- observations of any live object by every public read: unwrap, len, get_byte, v[i], slice, v[a:b] with optional bounds, get_word, == with a copy / another object; in the exhaustive sequences the whole content and the length are observed after EVERY write; values = bytes / BitVecVal / int / HalmosBitVec / fresh z3 symbols / Chunk windows into longer data / slices of the receiver or of another object / a whole ByteVec object; plain calls, the __setitem__ sugar with explicit and omitted bounds, the State wrappers of sevm.py), followed by get_byte on a grid, unwrap and get_word of every object; corpus, exhaustive short sequences, then seeded random sequences over per-case sub-grids of [0,1,2,30,31,32,33,63,64,65] so that writes land exactly on existing chunk boundaries. After EVERY step EVERY live object is compared (raised?, len, recursive chunk layout [(key,len,kind,start,data_len)], flat content; symbolic bytes by identity, else under 2 valuations) with the extracted heap model and with the flat reference. Generated cases respect the isolation proviso (an object passed whole is never a receiver afterwards). Non-trivial = some write took the aligned or general path of set_slice, split a chunk with set_byte, or was an overlapping self copy. (2) slice sugar: bv[start:stop] = bytes and bv[start:stop] over a grid of optional bounds (omitted, explicit 0, inside, at and beyond the end). (3) memory instructions: programs assembled from 1..7 of MSTORE (PUSH32 or CALLDATALOAD value) / MSTORE8 / MLOAD+MSTORE / CALLDATACOPY / CODECOPY / EXTCODECOPY (account with code, with empty code, without account) / RETURNDATACOPY (in bounds, at the end, beyond) / MCOPY (overlapping) / MLOAD and MSIZE observations between the writes, left on the stack / message calls (STATICCALL, CALL, DELEGATECALL, CALLCODE; callee = 0..3 instructions then RETURN or REVERT of a window of its memory, possibly halting; output area smaller / equal / larger than the returned data) / at most one creation (CREATE, CREATE2: the init code = 0..3 instructions then RETURN or REVERT is first written to memory with MSTOREs; it reads its EMPTY calldata and its own code), optionally a JUMPI on the symbolic CALLVALUE forking the path (often on a still empty memory) and a final RETURN / REVERT; calldata = concrete bytes and z3 symbols; offsets and sizes from a grid around 0, 32, 64 and the current ends. The real SEVM runs the program; for every reported path the final memory (length, recursive chunk layout, content), the returndata buffer, MSIZE, the output data and the code of the account a creation deployed are compared with the flat EVM semantics (failing input) and with the extracted MemOpsModel (broken tie). Non-trivial = the path ran to its end through >= 2 instructions; distinct by hash of the case. (4) chunk views over LARGE leaves: one leaf (fresh z3 symbol / concrete bytes) of N bytes, N = every integer literal of bytevec.py (read from the source at run time) -1/+0/+1, sizes around 32 / 256 / 1024 / 2048 / 4096 and random sizes in 1025..5000; offset views of it made by a word / byte overwrite inside the leaf (post chunk), by copying a sub-range into an empty ByteVec, by slices of slices and by nested chunk windows c[a:b][x:y][..]; then get_word / get_byte / slice(o, o+k).unwrap() (k = 1, 2, 8, 31..33, 64 and every source literal -1/+0/+1) / small self copies / unwrap / len through these views, each compared with the flat array, the returned z3 terms being evaluated (substitute + simplify) under 2 random valuations of the leaf; all non-trivial",
     )
 
 
 def replay(rep, body):
     for f in body.get("failures", []):
+        vc = (f.get("case") or {}).get("view_case")
+        if vc:
+            c07_views.replay_case(vc)
+            continue
         mc = (f.get("case") or {}).get("mem_case")
         if mc:
             acc, cc = c07_mem.build(mc)
